@@ -329,6 +329,25 @@ class ASTTypeBuilder:
         )
 
     def _build_argument(self, node: _ast.InputValueDefinition) -> Argument:
+        # Argument types are built eagerly, an output type (which could be the
+        # very type being built) can be refused upfront.
+        named_type = node.type
+        while isinstance(named_type, (_ast.ListType, _ast.NonNullType)):
+            named_type = named_type.type
+        if isinstance(
+            self._type_defs.get(named_type.name.value),
+            (
+                _ast.ObjectTypeDefinition,
+                _ast.InterfaceTypeDefinition,
+                _ast.UnionTypeDefinition,
+            ),
+        ):
+            raise SDLError(
+                'Expected input type for argument "%s" but got "%s"'
+                % (node.name.value, named_type.name.value),
+                [node],
+            )
+
         type_ = self.build_type(node.type)
         kwargs = dict(description=_desc(node), node=node)
         if node.default_value is not None:
